@@ -42,15 +42,24 @@ def depmap_schedules(seed_, n, steps=10):
         sch = [{"a": "Setup", "ops": setup}]
         for r in ("r1", "r2"):
             sch.append({"a": "Observe", "r": r})
-        for _ in range(steps):
+        live = list(TASKS)          # a purged task is not edited again by anybody (keeps every
+        for _ in range(steps):      # operation valid on the replica that makes it)
             t += 1
             r = rnd.choice(["r1", "r2"])
             k = rnd.random()
-            if k < 0.30:
-                u = rnd.choice(TASKS)
+            if k < 0.08 and len(live) > 2:
+                # the final purge of a task (TaskData::delete), whatever its status and edges
+                u = rnd.choice(live)
+                live.remove(u)
+                sch.append({"a": "Observe", "r": r})
+                sch.append({"a": "Edit", "r": r, "ops": [{"k": "D", "u": u, "p": "-", "v": "-", "t": 0, "o": []}]})
+                sch.append({"a": "Observe", "r": r})
+            elif k < 0.30:
+                u = rnd.choice(live)
                 sch.append({"a": "Edit", "r": r, "ops": [upd(u, "status", rnd.choice(["pending", "completed"]), t)]})
             elif k < 0.50:
-                a, b = rnd.sample(TASKS, 2)
+                a = rnd.choice(live)
+                b = rnd.choice([x for x in TASKS if x != a])
                 sch.append({"a": "Edit", "r": r, "ops": [upd(a, dep(b), rnd.choice(["x", "~"]), t)]})
             elif k < 0.75:
                 sch.append({"a": "FullSync", "r": r})
